@@ -159,6 +159,15 @@ pub fn hostile_date(r: &mut Rng) -> NaiveDate {
         5 => ymd(y, 6, r.int(18, 24) as u32),
         6 => ymd(y, 12, r.int(18, 24) as u32),
         7 => ymd(y, 9, r.int(19, 26) as u32),
+        8 => {
+            // January / February / 1 March of the century years (1700, 1800, 1900, 2100, 2200, 2300 are not leap)
+            let cy = *r.pick(&[1600, 1700, 1800, 1900, 2000, 2100, 2200, 2300]);
+            match r.int(0, 2) {
+                0 => ymd(cy, 1, r.int(1, 31) as u32),
+                1 => ymd(cy, 2, r.int(1, 28) as u32),
+                _ => ymd(cy, 3, 1),
+            }
+        }
         _ => rand_date(r),
     }
 }
